@@ -36,7 +36,9 @@ def wrap_tail(rng, core, depth, kinds=None):
 def bodies(rng, tier):
     out = []
     cores = ["(f (- n 1) (+ acc 1))", "(f (- n 1) (cons n acc))", "(f (- n 1) (let ((n 5)) (+ acc n)))",
-             "(f (- n 1) (progn (setq g (+ g 1)) acc))", "(f (1- n) n)"]
+             "(f (- n 1) (progn (setq g (+ g 1)) acc))", "(f (1- n) n)",
+             "(f (progn (tick 1) (- n 1)) (progn (tick 2) (+ acc 1)))", "(f (setq n (- n 1)) (+ acc n))", "(f (- n 1) (progn (setq g (- 1 g)) (setq g (+ g 1)) (+ acc g)))",
+             "(f (progn (setq g (cons 'a g)) (- n 1)) (progn (setq g (cons 'b g)) acc))"]
     for core in cores:
         for d in range(0, 4):
             for _ in range(4 if tier == "quick" else 12):
